@@ -993,7 +993,8 @@ pub fn compute(file: &File, r: &Rendered) -> Out {
                                     w.not("private_vars_leading_underscore", t, "consistent", c.kind);
                                 }
                             }
-                            None => w.dc("private_vars_leading_underscore", &[t], "no-visibility", c.kind),
+                            // C06: "whose leading underscore contradicts its *declared* visibility" — nothing is declared
+                            None => w.not("private_vars_leading_underscore", t, "no-declared-visibility", c.kind),
                         }
                     }
                 }
